@@ -74,6 +74,33 @@ def run(prog, chk):
     chk.ob("R1.readv-range", "readv:range", okrv and unparse(inner[0].test) == "%s > 0" % size_v, rv.loc, "for %s in %s: while %s" % (unparse(tgt), unparse(outer[0].iter), unparse(inner[0].test)))
     _chunk_loop(chk, "R1.chunks-tile-the-range", "readv", rv, inner[0], off_v, size_v, "read_chunks")
 
+    # a prefetch is only ever started with something to fetch: _start_prefetch switches prefetching on with
+    # _prefetch_done = False, and only a response to one of *its* requests can set it true again
+    stp = prog.method("SFTPFile", "_start_prefetch")
+    fst = Flow(prog, stp, implicit=False)
+    cparam = stp.params()[1]
+    on = fst.nodes(lambda n: n.kind == "stmt" and isinstance(n.ast, ast.Assign) and unparse(n.ast) in ("self._prefetching = True", "self._prefetch_done = False"))
+
+    def nonempty(t, name):
+        tx = unparse(t)
+        if tx in ("len(%s) > 0" % name, "len(%s) != 0" % name, "len(%s) >= 1" % name, name):
+            return "T"
+        if tx in ("len(%s) == 0" % name, "not %s" % name):       # CFG folds `not x` into x with swapped arms
+            return "F"
+        return None
+    self_guard = bool(on) and fst.dominated(on, guard_edge=lambda s_, lab, d_: fst.cfg.nodes[s_].kind == "cond" and nonempty(fst.cfg.nodes[s_].ast, cparam) == lab)
+    for caller in ("prefetch", "readv"):
+        cf = prog.method("SFTPFile", caller)
+        fcf = Flow(prog, cf, implicit=False)
+        for i, (n, c) in enumerate(fcf.nodes_with_call(name="self._start_prefetch")):
+            arg = unparse(c.args[0])
+            site_guard = fcf.dominated([n], guard_edge=lambda s_, lab, d_, arg=arg: fcf.cfg.nodes[s_].kind == "cond" and nonempty(fcf.cfg.nodes[s_].ast, arg) == lab)
+            chk.ob("R1.prefetch-started-only-with-chunks", "%s#%d" % (caller, i), self_guard or site_guard, fcf.where(c),
+                   "_start_prefetch(%s) is %s" % (arg, "guarded against an empty list (%s)" % ("inside _start_prefetch" if self_guard else "at the call site")
+                                                  if (self_guard or site_guard) else
+                                                  "reached with a possibly empty list: prefetching is switched on with nothing outstanding, _prefetch_done never "
+                                                  "becomes true and the next unbuffered read waits for ever"))
+
     # ---- R2 ------------------------------------------------------------------------------------------------
     pt = prog.method("SFTPFile", "_prefetch_thread")
     fpt = Flow(prog, pt, implicit=False)
